@@ -89,6 +89,37 @@ func init() {
 			return out
 		},
 		"strings.SplitN": mSplitN,
+		"strings.Count": func(e *Engine, a []Value) Value {
+			s, sub := a[0].(Str), a[1].(Str)
+			if sub.Len() == 0 {
+				return mkInt(64, uint64(len(e.decodeRunes(s))+1))
+			}
+			n := 0
+			rest := s
+			for {
+				i := mIndex(e, rest, sub)
+				if i < 0 {
+					break
+				}
+				n++
+				rest = rest.slice(i+sub.Len(), rest.Len())
+			}
+			return mkInt(64, uint64(n))
+		},
+		"strings.LastIndex": func(e *Engine, a []Value) Value {
+			s, sub := a[0].(Str), a[1].(Str)
+			m := sub.Len()
+			for i := s.Len() - m; i >= 0; i-- {
+				if e.Branch(strEq(s.slice(i, i+m), sub)) {
+					return mkInt(64, uint64(i))
+				}
+			}
+			return mkInt(64, ^uint64(0))
+		},
+		"strings.EqualFold": func(e *Engine, a []Value) Value {
+			x, y := mToLower(e, []Value{a[0]}).(Str), mToLower(e, []Value{a[1]}).(Str)
+			return fromTermB(strEq(x, y))
+		},
 		"strings.Split": func(e *Engine, a []Value) Value {
 			return mSplitN(e, []Value{a[0], a[1], mkInt(64, ^uint64(0))})
 		},
